@@ -316,6 +316,52 @@ def run_unit(u):
                     jobs = [('detached', sel_ if rng.random() < .7 else ':only-child', i % 3) for i in range(n)]
                     reps = 150
                     bump('stress_storms')
+                if rnd % 6 == 2:
+                    # a second storm: every thread compiles patterns made of names nobody has lower-cased yet (bounded memo tables are
+                    # full after the warm-up, so every new name evicts something); nothing but a compiled object may come back
+                    bump('stress_name_storms')
+                    errs = []
+                    barrier2 = threading.Barrier(n)
+
+                    import bs4 as _bs4
+                    els_ = []
+                    for i in range(n):
+                        sp_ = _bs4.BeautifulSoup('<div></div>', 'html.parser')
+                        for k_ in range(300):
+                            sp_.div['Data-R%dT%dK%d' % (rnd, i, k_)] = 'v'
+                        els_.append(sp_.div)
+                    last_ = [sv.compile('div[data-r%dt%dk299]' % (rnd, i)) for i in range(n)]
+
+                    def body2(i):
+                        barrier2.wait()
+                        for k_ in range(12):
+                            # an attribute selector walks every attribute name of its element through the case folding
+                            try:
+                                if last_[i].match(els_[i]) is not True:
+                                    errs.append('match of [data-r%dt%dk299] on its own element is not True' % (rnd, i))
+                            except BaseException as ex:  # noqa: BLE001
+                                errs.append('match raised %s: %s [%s]' % (type(ex).__name__, str(ex)[:80], monitors.exc_site(ex)))
+                            if errs:
+                                return
+                        for k_ in range(40):
+                            text_ = 'T%dx%dx%d[A%dx%dx%d=x i]:lang(L%dx%d)' % (rnd, i, k_, rnd, i, k_, i, k_)
+                            try:
+                                c_ = sv.compile(text_)
+                                if c_.pattern != text_:
+                                    errs.append('compile(%r) returned the object of %r' % (text_, c_.pattern))
+                            except BaseException as ex:  # noqa: BLE001
+                                errs.append('compile(%r) raised %s: %s [%s]' % (text_, type(ex).__name__, str(ex)[:80], monitors.exc_site(ex)))
+                            if errs:
+                                return
+                    ths2 = [threading.Thread(target=body2, args=(i,)) for i in range(n)]
+                    for t in ths2:
+                        t.start()
+                    for t in ths2:
+                        t.join(120)
+                    res['evals'] += 1
+                    if errs:
+                        report([('compile', 'T<round>x<thread>x<k>[A...=x i]:lang(L...) (fresh names)', None)] * 2, [], errs[:2], 'free-running')
+                    continue
                 allres = [[None] * n for _ in range(reps)]
                 barrier = threading.Barrier(n)
 
